@@ -13,9 +13,9 @@ def build_lca():
     return text, located, dropped
 
 
-LCA_UNIT = Verus('c04_lca', build_lca, min_verified=25,
+LCA_UNIT = Verus('c04_lca', build_lca, min_verified=31,
                  contract='lca_pair, last_common_ancestor, Segment::previous (extracted; any graph, any number of heads, any order): lca_pair terminates and returns a command of the graph that is an '
-                          'ancestor-or-self of both arguments, with no Bug exit on a rooted graph; last_common_ancestor returns an ancestor-or-self of every head '
+                          'ancestor-or-self of both arguments AND a cut (every ancestor of either side with a max cut not above it passes through it — which is what makes the LCA recorded in a merge segment a sound skip entry, axiom A4 of C11, given A4 for the existing segments), with no Bug exit on a rooted graph; last_common_ancestor returns an ancestor-or-self of every head '
                           '(the braid drops everything at or below this cut as shared history)')
 
 PROPERTY = 'C04'
